@@ -154,6 +154,11 @@ pub fn bx(x: u32) -> std::pin::Pin<Box<dyn std::future::Future<Output = u32> + S
     c.append(F("bs", """#[TRACE]
 pub fn bs(x: u32) -> std::pin::Pin<Box<dyn std::future::Future<Output = u32> + Send>> { rt::log(format!("bs-prepare {x}")); Box::pin(async move { HERE rt::Yield(x % 2).await; rt::log("bs"); x + 1 }) }""",
                [(str(x), 'format!("{:?}", rt::block_on(M::bs(%du32)))' % x) for x in (0, 1)], is_async=True, async_trait=True))
+    # an async factory: an async fn whose tail expression is a pinned future; the span belongs to the call, not to what it returns
+    c.append(F("af", """#[TRACE]
+pub async fn af(x: u32) -> std::pin::Pin<Box<dyn std::future::Future<Output = u32> + Send>> { HERE rt::log(format!("af-prepare {x}")); rt::Yield(x % 2).await; Box::pin(async move { rt::log("af-inner"); rt::Yield(1).await; x + 7 }) }""",
+               [(str(x), '{ let inner = rt::block_on(M::af(%du32)); rt::log("af-returned"); format!("{:?}", rt::block_on(inner)) }' % x) for x in (0, 1)], is_async=True,
+               split=[("1", '{ let inner = rt::under_split_parent(|| rt::block_on(M::af(1u32))); rt::log("af-returned"); format!("{:?}", rt::block_on(inner)) }')]))
     c.append(F("am", """pub trait Tr2 { fn am(&self, x: u32) -> impl std::future::Future<Output = u32>; }
 pub struct Imp2(pub u32);
 impl Tr2 for Imp2 {
